@@ -35,6 +35,16 @@ def _flags(rng, g):
     se = rng.choice(SIMPLIFY)
     if se:
         f["simplify_expression"] = se
+    # a first-order equation whose right-hand side refers to a derivative: preserved text must be re-spelt with the configured marker
+    primed = [d["expression"].split("=")[0].strip()[:-1] for d in g["indict"]["dynamics"]
+              if d["expression"].split("=")[0].count("'") == 1 and "'" in d["expression"].split("=")[1]]
+    if primed and rng.random() < 0.7:
+        g["indict"].setdefault("options", {})["differential_order_symbol"] = rng.choice(["__DD", "_prime", "__d", "_D"])
+        f["preserve_expressions"] = True if rng.random() < 0.5 else [rng.choice(primed)]
+        f.pop("simplify_expression", None)
+        if rng.random() < 0.6:
+            f["disable_analytic_solver"] = True
+        g["primed_preserved"] = True
     return f
 
 
@@ -67,6 +77,8 @@ def run(ctx, driver):
             continue
         flags = case.get("flags", {})
         ctx.count("flags:" + ",".join(sorted(k if not isinstance(v, list) else k + "=list" for k, v in flags.items())) or "flags:none")
+        if case.get("primed_preserved"):
+            ctx.count("primed_reference_preserved")
         if res.get("error"):
             ctx.count("analysis_error:" + res["error"]["type"])
             continue
